@@ -15,12 +15,21 @@ class SuitIntegratedPayloadMap(SuitKeyValueUnnamed):
 
     _metadata = Metadata(map={SuitTstr: SuitHex})
 
+    @staticmethod
+    def _names_existing_file(value) -> bool:
+        """Check if the string, although it consists of hex digits only, is the path of an existing file."""
+        try:
+            return isinstance(value, str) and len(value) > 0 and pathlib.Path(value).is_file()
+        except OSError:
+            # e.g. a long hex string is not a usable file name
+            return False
+
     @classmethod
     def from_obj(cls, obj: dict) -> SuitKeyValueUnnamed:
         """Restore SUIT representation from passed object."""
         ret = {}
         for k, v in obj.items():
-            if all(c in string.hexdigits for c in v):
+            if all(c in string.hexdigits for c in v) and not cls._names_existing_file(v):
                 data = v
             elif isinstance(v, dict):
                 # called here to avoid circular import
